@@ -974,8 +974,8 @@ Qed.
 (* the sampled structure function of kernel_pair *)
 Definition kl_sf (nr : nat) (rad : list R) (i j : nat) : list R :=
   let a := nth i rad 0 in let b := nth j rad 0 in
-  map (fun t => stf_kolmogorov O (nofQ O 5 10 * nsqrt O ((nsqr O a + nsqr O b)
-                  - ((two O * a) * b) * ncos O (((kz O t * two O) * npi O) / kz O (5 * nr)))))
+  map (fun t => stf_kolmogorov O (nofQ O 5 10 * nsqrt O (nmax O ((nsqr O a + nsqr O b)
+                  - ((two O * a) * b) * ncos O (((kz O t * two O) * npi O) / kz O (5 * nr))) (nzero O))))
       (seq 0 (5 * nr)).
 
 Theorem kernel_real_even : forall ri nr rad i j,
@@ -992,7 +992,7 @@ Proof.
   assert (Hlen : length sf = N) by (unfold sf, kl_sf; rewrite map_length, seq_length; reflexivity).
   assert (Hev : forall t, (0 < t < N)%nat -> nth (N - t) sf 0 = nth t sf 0).
   { intros t Ht. assert (HN' : 0 < INR N) by (apply lt_0_INR; lia).
-    unfold sf, kl_sf. fold N. rewrite !nth_map_seq by lia. f_equal. f_equal. f_equal. f_equal. f_equal.
+    unfold sf, kl_sf. fold N. rewrite !nth_map_seq by lia. f_equal. f_equal. f_equal. f_equal. f_equal. f_equal.
     unfold kz, two. rops. rewrite <- !INR_IZR_INZ. rewrite minus_INR by lia.
     replace ((INR N - INR t) * 2 * PI / INR N) with (- (INR t * 2 * PI / INR N) + 2 * INR 1 * PI)
       by (cbn [INR]; field; lra).
